@@ -57,7 +57,9 @@ int main(void)
     for (uint32_t i = 0; i < CAPT; i++) { if (i < nd && tag[i] != cx_in[i]) ok = 0; if (i == nd && tag[i] != 0) ok = 0; }
     for (uint32_t i = 0; i < CAPV; i++) { if (i < vlen && val[i] != cx_in[nd + 1 + i]) ok = 0; if (i == vlen && val[i] != 0) ok = 0; }
     VF_ASSERT(ok, "C03: tag and value are the NUL-terminated text of the token");
-    VF_REACH();
+#if NIN >= 2
+    VF_REACH();                  /* the shortest token is "=" SOH */
+#endif
   } else VF_REACH();
 #else
   cx_mode = 1;
@@ -81,7 +83,9 @@ int main(void)
     /* C06 reuses this harness: the data value must be followed by the field separator it is charged for */
     VF_ASSERT(r <= sz && cx_in[r - 1] == SOH, "C06: a length-prefixed value is followed by the field separator that is consumed with it");
 #endif
+#if NIN >= 2
     VF_REACH();
+#endif
   } else VF_REACH();
 #endif
   return 0;
